@@ -17,6 +17,7 @@ import (
 type Config struct {
 	Solver        string
 	TimeoutMs     int
+	FallbackMs    int // time limit of the cvc5 second opinion on "unknown" (0: none)
 	StepBudget    int64
 	MaxDepth      int
 	MaxAlloc      int
@@ -39,7 +40,7 @@ type Config struct {
 }
 
 func DefaultConfig() Config {
-	return Config{Solver: "z3", TimeoutMs: 30000, StepBudget: 5_000_000, MaxDepth: 400, MaxAlloc: 64,
+	return Config{Solver: "z3", TimeoutMs: 30000, FallbackMs: 90000, StepBudget: 5_000_000, MaxDepth: 400, MaxAlloc: 64,
 		Unwind: 40, ConcretizeCap: 64, Workers: 8, MaxPaths: 200000, Validate: 8}
 }
 
@@ -560,6 +561,7 @@ func NewWorker(p *Program, cfg *Config, id int) (*Worker, error) {
 	if err != nil {
 		return nil, err
 	}
+	s.FallbackMs = cfg.FallbackMs
 	if os.Getenv("GOSYM_SMTLOG") != "" && id == 0 {
 		f, _ := os.Create(os.Getenv("GOSYM_SMTLOG"))
 		s.Log = f
